@@ -333,6 +333,8 @@ def check(prog, res, tier):
         seen_c['pos'], 'a bitmap position set next to an emitted element inside the element loop'))
 
     res.add(presence_ob(prog, res, dfi))
+    for ob in common.state_obs(res, 'C02.c', func_where(dfi), [('_field_to_iso8583', runs), ('_dict_to_iso8583', runs_d)], 'message encoding'):
+        res.add(ob)
     if prog.has_func('iso8583._icc_to_dict'):
         res.add(icc_tag_ob(prog, res))
 
